@@ -312,6 +312,52 @@ class EngineSim(TreeSim):
             return
         self.model.close_date()
         self.compare_histories()
+        if "C10" in self.judge and self.completed:
+            self.check_finite()
+            self.check_reports_complete()
+
+    def check_finite(self):
+        """a completed well-formed run records only finite numbers (the feed's own NaN prices excepted)"""
+        import numpy as np
+
+        for n in self.root.members:
+            df = n.data
+            for col in df.columns:
+                if col == "price" and not hasattr(n, "capital"):
+                    continue
+                a = df[col].to_numpy(dtype=float, na_value=float("nan"))
+                if not np.isfinite(a).all():
+                    i = int(np.argmin(np.isfinite(a)))
+                    self.c10("nonfinite", "%s.%s[%s] = %r" % (n.full_name, col, df.index[i], a[i]), {"col": col})
+                    return
+
+    def check_reports_complete(self):
+        bt = self.bt
+        bkt = self.bkt
+        reports = [
+            ("stats", lambda: bkt.stats),
+            ("weights", lambda: bkt.weights),
+            ("security_weights", lambda: bkt.security_weights),
+            ("positions", lambda: bkt.positions),
+            ("turnover", lambda: bkt.turnover),
+            ("herfindahl_index", lambda: bkt.herfindahl_index),
+            ("get_transactions", lambda: bkt.strategy.get_transactions()),
+            ("Result", lambda: bt.backtest.Result(bkt)),
+            ("Result.get_transactions", lambda: bt.backtest.Result(bkt).get_transactions()),
+            ("Result.get_weights", lambda: bt.backtest.Result(bkt).get_weights()),
+            ("Result.get_security_weights", lambda: bt.backtest.Result(bkt).get_security_weights()),
+            ("Result.stats", lambda: bt.backtest.Result(bkt).stats),
+        ]
+        cur = taps.CUR
+        taps.set_current(None)
+        try:
+            for name, fn in reports:
+                try:
+                    fn()
+                except Exception as e:  # noqa
+                    self.c10("report_raises", "%s raised %s: %s" % (name, type(e).__name__, str(e)[:160]), {"report": name, "exc": type(e).__name__, "has_securities": bool(self.root.securities)})
+        finally:
+            taps.set_current(cur)
 
     # engine runs start from Backtest's own initial flow on the pre-start row
     def check_initial_flow(self):
@@ -376,3 +422,19 @@ def simplifications(plan):
     for t2 in strip(plan["tree"]):
         out.append(dict(plan, tree=t2))
     return out
+
+
+def check_dup_columns(bt, plan):
+    """ill-formed class: duplicate tickers must be refused by the Backtest constructor"""
+    import pandas as pd
+
+    from . import feed as fm
+
+    f = fm.Feed(plan["feed"])
+    data = f.frames()["prices"]
+    data = pd.concat([data, data.iloc[:, :1]], axis=1)
+    try:
+        bt.Backtest(bt.Strategy("s", []), data)
+    except Exception as e:  # noqa
+        return "duplicate" in str(e)
+    return False
